@@ -284,6 +284,7 @@ def umonC03 : List UMonitor := [ fun u st => at2 "commit" (commitTruth u.H st (u
 def umonSnap : List UMonitor := [ fun u st => at2 "snapshot" (snapshotTruth u.H st (u.hl.headD 0 :: u.hl) 0) ]
 def umonAll : List UMonitor :=
   umonC02 ++ umonC03 ++ (monC06 ++ monC14 ++ monC04 ++ monC11 ++ monC10).map lift ++
+  [ lift (fun _ st => at_ "prevote-granted-to-candidate-behind-durable-log" (preVotesUpToDate st 0)) ] ++
   [ staleMon ] ++ umonSnap
 def umonFor : String → List UMonitor
   | "C02" => umonC02 ++ umonSnap
@@ -293,7 +294,7 @@ def umonFor : String → List UMonitor
   | "C06" => monC06.map lift
   | "C10" => monC10.map lift ++ umonC02 ++ umonSnap
   | "C11" => monC11.map lift ++ umonC03 ++ umonSnap
-  | "C14" => monC14.map lift
+  | "C14" => monC14.map lift ++ [ lift (fun _ st => at_ "prevote-granted-to-candidate-behind-durable-log" (preVotesUpToDate st 0)) ]
   | "C07" => [ lift (fun _ st => at_ "latest-configuration-names-an-entry-that-is-gone" (latestConfigBacked st 0)) ]
   | "C12" => []
   | "C18" => [ lift (fun _ st => at_ "stale-request-renamed-the-leader" (staleRequestKeepsLeader st 0)),
